@@ -15,6 +15,30 @@ CHECKS = {
             'produced, nothing is proved.',
             'CPython 3.12 sys.monitoring semantics; generators reach the hostile classes listed in the evidence histograms',
             'DESIGN.md section 4 C01'),
+    'C02': ('runtime postcondition monitor on multi_knee.multi_knee (executable recursion with the live detector callable) + loop-bound monitor',
+            'Every multi_knee call (all five detectors) is compared for exact equality with the documented recursion recomputed '
+            'from the same detector callable and the library\'s own SMAPE primitive, plus range/ordering clauses and step bounds '
+            'on the multi_knee, DFDT and L-method loops; exact-tie thresholds t1 == realised SMAPE are generated on purpose.',
+            'detectors are deterministic (C20); only the default straightness metric is exercised',
+            'DESIGN.md section 4 C02'),
+    'C04': ('runtime postcondition monitor on rdp.rdp: recursive-partition explainer using the library\'s own cost/distance primitives',
+            'For every rdp.rdp call the monitor re-derives a recursive split tree that explains every retained index and checks every '
+            'accepted segment against the threshold with bit-identical cost values (metric dispatched by the monitor, not by rdp.py); '
+            'equally-far split points within the distance noise floor are interchangeable (back-tracking).',
+            'same-primitive rule: linear_fit.*_points and the distance primitives themselves are decided by C16/C17',
+            'DESIGN.md section 4 C04'),
+    'C05': ('history monitor over the chain rdp_fixed(k), k=0..n+1, plus online frame-local monitor of the _rdp_fixed work stack',
+            'Exact size, nesting, farthest-point and maximal-priority clauses are checked on every consecutive pair of the chain for '
+            'every curve x distance x ordering; the online monitor reads the real stack at each loop iteration and asserts the popped '
+            'entry has the maximal stored priority.',
+            'priorities recomputed with the saved primitives on equal-valued slices (bit-identical); first split exempt',
+            'DESIGN.md section 4 C05'),
+    'C06': ('runtime postcondition monitors on grdp / mp_grdp / min_point_rdp against the recomputed fixed-size chain and fresh-cache global cost',
+            'Each result is compared for exact equality with S_k* (least k whose fresh-cache global cost is on the accepting side), '
+            'S_max(k*,min(m,n)) and the documented multi-threshold selection; thresholds are placed on and around the realised cost '
+            'ladder so that k* spreads over 2..n and exact ties occur.',
+            'rdp_fixed (C05) and compute_global_cost with a fresh cache (C15) are taken as the reference',
+            'DESIGN.md section 4 C06'),
 }
 
 BUILDING = {}   # id -> reason (properties not claimed yet)
